@@ -165,6 +165,42 @@ def build_ops(tmp, rnd):
     return ops
 
 
+def child_main():
+    """run in a fresh interpreter (its own PYTHONHASHSEED): digest of every non-training operation for seed 100"""
+    import logging, warnings
+    logging.disable(logging.CRITICAL)
+    warnings.filterwarnings("ignore")
+    tmp = tempfile.mkdtemp(prefix="verif-c18c-")
+    try:
+        ops = build_ops(tmp, random.Random(int(sys.argv[2])))
+        out = {}
+        for name, (f, indig, known) in sorted(ops.items()):
+            if known:
+                continue
+            st, o = outcome(f, 100)
+            out[name] = [indig, o if st == "ok" else "raised:" + o]
+        print("CHILD-RESULT " + json.dumps(out))
+    finally:
+        shutil.rmtree(tmp, ignore_errors=True)
+
+
+def across_processes(ctx, it):
+    """the same operations repeated in separate interpreter processes with different string-hash seeds"""
+    import subprocess
+    events = []
+    env = dict(os.environ)
+    for hs in ("1", "2", "3") if ctx.quick else ("1", "2", "3", "4", "5", "6"):
+        env["PYTHONHASHSEED"] = hs
+        p = subprocess.run([sys.executable, "-c", "import sys; sys.argv=['c', 'child', '%d']; from harness.drivers import c18; c18.child_main()" % ctx.seed],
+                           env=env, stdout=subprocess.PIPE, stderr=subprocess.DEVNULL, text=True, timeout=600)
+        line = [l for l in p.stdout.splitlines() if l.startswith("CHILD-RESULT ")]
+        if not line:
+            raise RuntimeError("child process produced no result (rc=%s)" % p.returncode)
+        for name, (indig, o) in json.loads(line[0][len("CHILD-RESULT "):]).items():
+            events.append({"ev": "call", "what": name + " (separate interpreter processes)", "key": it((name, indig, 100, "proc")), "out": it(o), "g0": 0, "g1": 0})
+    return {"g0": 0, "events": events}
+
+
 def run(ctx):
     from harness import tlc
     from harness.tracecheck import validate
@@ -224,6 +260,12 @@ def run(ctx):
                 ctx.finding(known, what, {"kind": "op", "op": name, "clause": clause})
             else:
                 ctx.violation(what, {"kind": "op", "op": name, "clause": clause})
+        # repeated in fresh interpreter processes (different PYTHONHASHSEED): iteration over sets / dicts of strings must not leak
+        pt = across_processes(ctx, Interner())
+        badp = validate(ctx, "TraceFunctional", [pt], decide=None, next_="TNext", init="TInit",
+                        constants={"Keys": {0}, "Outs": {0}, "Globs": {0}, "CheckGlobal": False}, note="across interpreter processes")
+        for i, clause in badp:
+            ctx.violation("%s" % clause, {"kind": "across-processes", "clause": clause})
         ctx.extra["operations"] = sorted(ops)
         ctx.extra["output_changes_with_seed"] = changed
         if not any(changed.values()):
